@@ -134,6 +134,11 @@ def gen_lines(rng, cv, count, outside):
         for cs in todo + [tuple(rng.choice([0, 0, 1, -1, rng.below(1 << 20), -rng.below(1 << 62)]) for _ in range(4))]:
             kk = sum(c * pow(L, i, cv.n) for i, c in enumerate(cs)) % cv.n
             out.append("e2m %s %d %s %s" % (v, rng.below(2), ptok(rng, cv, rng.choice(pool + [cv.g]), "" if v.startswith("fix") else "P"), hx(kk)))
+    # two-point simultaneous multiplication with the result object being the first / second point operand, every variant
+    for v in SIM:
+        for al in (".p", ".q"):
+            out.append("e2s %s%s %s %x %s %x" % (v, al, ptok(rng, cv, rng.choice(pool), "P"), 1 + rng.below(cv.n - 1),
+                                                ptok(rng, cv, rng.choice(pool), "P"), 1 + rng.below(cv.n - 1)))
     for _ in range(count):
         k = rng.below(100)
         if k < 22:
@@ -166,7 +171,7 @@ def gen_lines(rng, cv, count, outside):
                 kk = abs(kk) & ((1 << 64) - 1)
             out.append("e2m %s %d %s %s" % (v, rng.below(2), ptok(rng, cv, P, "" if v.startswith("fix") else "P"), hx(kk)))
         elif k < 93:
-            v = rng.choice(SIM)
+            v = rng.choice(SIM) + rng.choice(["", "", ".p", ".q"])      # result object = an operand
             out.append("e2s %s %s %s %s %s" % (v, ptok(rng, cv, point(rng, cv, pool)), hx(c03.scalar(rng, cv.n)),
                                                ptok(rng, cv, point(rng, cv, pool)), hx(c03.scalar(rng, cv.n))))
         else:
@@ -270,7 +275,7 @@ def matches_finding(f, r):
         return True
     if f.get("pred") == "ep2_slide_long" and t[0] == "e2m" and t[1] == "slide" and r["got"] == "err":
         return int(t[4].lstrip("-"), 16).bit_length() > 257
-    if f.get("pred") == "sim_table_identity" and t[0] == "e2s" and t[1] in ("trick", "joint") and r["got"] == "err" and r.get("context"):
+    if f.get("pred") == "sim_table_identity" and t[0] == "e2s" and t[1].split(".")[0] in ("trick", "joint") and r["got"] == "err" and r.get("context"):
         cv = CVS.get(int(r["context"].split()[1]))
         if cv is None:
             return False
